@@ -19,7 +19,8 @@ const ALLOWED: &[&str] = &[
 
 pub fn pick_program(ctx: &Ctx, rng: &mut Rng) -> programs::Picked {
     match rng.below(10) {
-        0..=2 => programs::pick_w1(ctx, rng),
+        0..=1 => programs::pick_w1(ctx, rng),
+        2 => programs::pick_w5(rng),
         3..=4 => programs::pick_w4(ctx, rng),
         5..=6 => crate::w2::pick(rng, &crate::w2::GenOpts::default()),
         _ => crate::w3::pick(rng),
@@ -37,7 +38,7 @@ impl Property for C19 {
         if tier == "thorough" { 1_500_000 } else { 40_000 }
     }
     fn rule(&self) -> String {
-        "case = (program from W1 corpus | W4 recombined corpus | W2 call-tree generator | W3 object histories) x (world: random subset of 18 dimensions changed against the reference world w0) x (plan of invisible I/O events: write/read chunking, EINTR bursts, short writes, ERANGE on getcwd, wrong size hint); oracle: transcript (stdout, stderr, exit status) equals the reference world's up to the echoed script path; a case is non-trivial when the world differs from w0 or an invisible event fired; distinct = distinct (program, world, plan) triples".to_string()
+        "case = (program from W1 corpus | W5 supplementary scripts (function values, many-key objects, object rest, duplicate names) | W4 recombined corpus | W2 call-tree generator | W3 object histories) x (world: random subset of 18 dimensions changed against the reference world w0) x (plan of invisible I/O events: write/read chunking, EINTR bursts, short writes, ERANGE on getcwd, wrong size hint); oracle: transcript (stdout, stderr, exit status) equals the reference world's up to the echoed script path; a case is non-trivial when the world differs from w0 or an invisible event fired; distinct = distinct (program, world, plan) triples".to_string()
     }
     fn assumptions(&self) -> Vec<String> {
         vec![
